@@ -1,1 +1,251 @@
-def freshness_case(rep, *a): pass
+"""whole runs of the real controller + real sweepers + real BaseTransfer on symbolic initial values (C01, C03 b, C19)"""
+import random
+from fractions import Fraction
+
+import numpy as np
+import z3
+
+from symx import core
+from symx import pysdc as sp
+from symx.core import SymReal, R, rv, frac, Ctx, explore, prove, satisfiable, coverage_certificate, zabs, zmax, model_value
+
+from pySDC.core.hooks import Hooks
+from pySDC.helpers.stats_helper import get_sorted
+from pySDC.implementations.controller_classes.controller_nonMPI import controller_nonMPI
+
+LOG = []
+
+
+class RecRes(Hooks):
+    """records, at post_iteration and post_step, the residual the level reports and everything needed to recompute the defect"""
+
+    def _snap(self, name, step):
+        L = step.levels[0]
+        M = L.sweep.coll.num_nodes
+        LOG.append(dict(ev=name, slot=step.status.slot, iter=step.status.iter, res=L.status.residual,
+                        u=[sp.terms(L.u[m]) for m in range(M + 1)], tau=[sp.terms(t) if t is not None else None for t in L.tau],
+                        uend=sp.terms(L.uend) if L.uend is not None else None, time=L.time, dt=L.dt))
+
+    def post_iteration(self, step, level_number):
+        super().post_iteration(step, level_number)
+        self._snap('post_iteration', step)
+
+    def post_step(self, step, level_number):
+        super().post_step(step, level_number)
+        self._snap('post_step', step)
+
+
+class MatTransfer:
+    """space transfer given by exact matrices (built by the harness from the real interpolation helper)"""
+
+    P = None
+    Rm = None
+
+    def __init__(self, fine_prob, coarse_prob, params):
+        self.fine_prob, self.coarse_prob = fine_prob, coarse_prob
+
+    def restrict(self, F):
+        G = type(F)(self.coarse_prob.init)
+        G[:] = sp.DenseDot(type(self).Rm).dot(F)
+        return G
+
+    def prolong(self, G):
+        F = type(G)(self.fine_prob.init)
+        F[:] = sp.DenseDot(type(self).P).dot(G)
+        return F
+
+
+def problem_matrix(kind, n):
+    if kind == 'dahlquist':
+        return np.diag([-1.0, -2.5, -0.5][:n])
+    if kind == 'heat':
+        # 1-D finite-difference Laplacian from the real helper, Dirichlet-0, scaled to the contraction range
+        from pySDC.helpers.problem_helper import get_finite_difference_matrix
+
+        A, _ = get_finite_difference_matrix(derivative=2, order=2, stencil_type='center', dx=1.0, size=n, dim=1, bc='dirichlet-zero')
+        return np.asarray(A.todense(), dtype=float) * 0.5
+    if kind == 'advection':
+        from pySDC.helpers.problem_helper import get_finite_difference_matrix
+
+        A, _ = get_finite_difference_matrix(derivative=1, order=1, stencil_type='upwind', dx=1.0, size=n, dim=1, bc='periodic')
+        return -np.asarray(A.todense(), dtype=float) * 0.5
+    raise ValueError(kind)
+
+
+def build(cfg, float_mode=False):
+    """cfg: dict(sweeper, prob, n, M (list per level), NP, qd, restol, maxiter, predict, jac, residual_type, dt, nsweeps, initial_guess)"""
+    from harness import c02
+    from harness import sweepspec as ss
+
+    c02._load()
+    A = problem_matrix(cfg['prob'], cfg['n'])
+    kind = cfg['sweeper']
+    NL = len(cfg['M'])
+    if kind == 'generic_implicit' or kind == 'explicit':
+        pc = ss.FLin if float_mode else sp.LinProb
+        pp = {'A': A}
+        key = {'QI': cfg['qd']} if kind == 'generic_implicit' else {'QE': 'EE'}
+    elif kind == 'imex_1st_order':
+        pc = ss.FImex if float_mode else sp.ImexProb
+        AI = np.diag(np.diag(A))
+        pp = {'AI': AI, 'AE': A - AI}
+        key = {'QI': cfg['qd'], 'QE': 'EE'}
+    elif kind == 'multi_implicit':
+        pc = ss.FMulti if float_mode else sp.MultiProb
+        pp = {'A1': 0.5 * A, 'A2': 0.5 * A}
+        key = {'Q1': cfg['qd'], 'Q2': cfg['qd']}
+    sw = {'num_nodes': cfg['M'] if NL > 1 else cfg['M'][0], 'quad_type': cfg.get('quad_type', 'RADAU-RIGHT'), 'initial_guess': cfg.get('initial_guess', 'spread'), **key}
+    d = dict(problem_class=pc, problem_params=pp, sweeper_class=c02.SWEEPERS[kind], sweeper_params=sw,
+             level_params={'dt': cfg['dt'], 'restol': cfg['restol'], 'residual_type': cfg.get('residual_type', 'full_abs'),
+                           'nsweeps': ([cfg.get('nsweeps', 1)] * (NL - 1) + [1]) if NL > 1 else cfg.get('nsweeps', 1)},
+             step_params={'maxiter': cfg['maxiter']})
+    if NL > 1:
+        d['space_transfer_class'] = FloatInject if float_mode else sp.Inject
+        if cfg.get('finter'):
+            d['base_transfer_params'] = {'finter': True}
+    cp = {'logger_level': 50, 'dump_setup': False, 'hook_class': [RecRes] + list(cfg.get('hooks', [])), 'predict_type': cfg.get('predict'),
+          'mssdc_jac': cfg.get('jac', True), 'all_to_done': cfg.get('all_to_done', False)}
+    return controller_nonMPI(cfg['NP'], cp, d), A
+
+
+from pySDC.core.space_transfer import SpaceTransfer
+
+
+class FloatInject(SpaceTransfer):
+    def restrict(self, F):
+        return type(F)(F)
+
+    def prolong(self, G):
+        return type(G)(G)
+
+
+def run_symbolic(c, cfg, xs=None, t0=0.0, nsteps=None, ctl=None):
+    LOG.clear()
+    if ctl is None:
+        ctl, A = build(cfg)
+    else:
+        A = problem_matrix(cfg['prob'], cfg['n'])
+    P = ctl.MS[0].levels[0].prob
+    n = cfg['n']
+    xs = xs if xs is not None else [z3.Real(f'x{i}') for i in range(n)]
+    for x in xs:
+        if z3.is_const(x) and x.decl().kind() == z3.Z3_OP_UNINTERPRETED:
+            c.add(z3.And(x >= -1, x <= 1))
+    u0 = sp.mkmesh(P, [SymReal(x) for x in xs])
+    nsteps = nsteps if nsteps is not None else cfg['NP'] * cfg.get('blocks', 1)
+    uend, stats = ctl.run(u0, t0, t0 + cfg['dt'] * nsteps)
+    return ctl, A, uend, stats, xs
+
+
+def defect_norm(snap, Q, A, dt, rt):
+    """configured norm of u0 + dt Q A U + tau - U from the recorded node values (z3 term)"""
+    from harness.common import zmatvec
+
+    M = Q.shape[0] - 1
+    n = len(snap['u'][0])
+    Afr = sp.tofrac_matrix(A)
+    rows = []
+    for m in range(1, M + 1):
+        acc = [snap['u'][0][i] - snap['u'][m][i] for i in range(n)]
+        for j in range(1, M + 1):
+            if Q[m, j] != 0:
+                Au = zmatvec(Afr, snap['u'][j])
+                acc = [acc[i] + rv(frac(dt) * frac(Q[m, j])) * Au[i] for i in range(n)]
+        if snap['tau'][m - 1] is not None:
+            acc = [acc[i] + snap['tau'][m - 1][i] for i in range(n)]
+        rows.append(acc)
+    if rt.startswith('last'):
+        rows = rows[-1:]
+    nd = zmax([zabs(x) for r in rows for x in r])
+    if rt.endswith('rel'):
+        nd = nd / zmax([zabs(x) for x in snap['u'][0]])
+    return nd
+
+
+# ------------------------------------------------------------------------------------------------ C03 (b) freshness
+
+
+def freshness_case(rep, NP, NL, maxiter, rt, jac=True):
+    sp.install_shadows()
+    name = f'fresh/NP{NP}/NL{NL}/K{maxiter}/{rt}/jac{int(jac)}'
+    cfg = dict(sweeper='generic_implicit', prob='dahlquist', n=1, M=[2, 1][:NL], NP=NP, qd='LU', restol=1e-2, maxiter=maxiter,
+               predict=('pfasst_burnin' if NL > 1 and NP > 1 else None), jac=jac, residual_type=rt, dt=0.25)
+
+    def fn(c):
+        ctl, A, uend, stats, xs = run_symbolic(c, cfg)
+        if rt.endswith('rel'):
+            c.add(xs[0] != 0)
+        L = ctl.MS[0].levels[0]
+        logged = {(round(float(k.time), 9), k.iter): v for k, v in stats.items() if k.type == 'residual_post_iteration'}
+        logged_step = {round(float(k.time), 9): v for k, v in stats.items() if k.type == 'residual_post_step'}
+        return dict(log=list(LOG), Q=np.array(L.sweep.coll.Qmat), A=A, stats_it=logged, stats_step=logged_step)
+
+    paths = explore(fn, max_paths=5000)
+    rep.paths += len(paths)
+    rep.decisions += sum(len(p.decisions) for p in paths)
+    nq = 0
+    for i, p in enumerate(paths):
+        r = p.result
+        A_ = list(p.assume) + list(p.pc)
+        for s in r['log']:
+            spec = defect_norm(s, r['Q'], r['A'], cfg['dt'], rt)
+            got = R(s['res'])
+            # the hook's record and the stats entry must be this very value
+            key = (round(float(s['time']), 9), s['iter'])
+            st = r['stats_it'].get(key) if s['ev'] == 'post_iteration' else r['stats_step'].get(key[0])
+            same_obj = st is not None and R(st).eq(got)
+            res, m = prove(got == spec, A_, name=f'{name}/path{i}/{s["ev"]}/slot{s["slot"]}/it{s["iter"]}')
+            nq += 1
+            rep.ob(f'{name}/path{i}/{s["ev"]}/slot{s["slot"]}/it{s["iter"]}', res)
+            rep.side(f'{name}/path{i}/{s["ev"]}/slot{s["slot"]}/it{s["iter"]}:stats-entry-is-that-value', same_obj)
+            if res == 'sat':
+                x = float(model_value(m, z3.Real('x0')))
+                freshness_triage(rep, cfg, x, s, name)
+    rep.ob(f'{name}:coverage', coverage_certificate(paths, [z3.And(z3.Real('x0') >= -1, z3.Real('x0') <= 1)] + ([z3.Real('x0') != 0] if rt.endswith('rel') else []), name=f'{name}:coverage'))
+    rep.sample({'case': name, 'paths': len(paths), 'residual_records_checked': nq, 'free_variables': 'initial value in [-1,1]'}, limit=6)
+
+
+def freshness_triage(rep, cfg, x, snap, name):
+    """float replay: recompute the defect from the real float level at the same callback"""
+    rep.replayed += 1
+    got = {}
+
+    class Probe(Hooks):
+        def _chk(self, ev, step):
+            if step.status.slot == snap['slot'] and step.status.iter == snap['iter'] and ev == snap['ev']:
+                L = step.levels[0]
+                M = L.sweep.coll.num_nodes
+                Q = L.sweep.coll.Qmat
+                U = np.array([np.asarray(L.u[m], dtype=float) for m in range(M + 1)])
+                F = np.array([np.asarray(L.f[m], dtype=float) for m in range(M + 1)])
+                d = U[0][None, :] + L.dt * Q[1:, 1:] @ F[1:] - U[1:]
+                for m in range(M):
+                    if L.tau[m] is not None:
+                        d[m] += np.asarray(L.tau[m], dtype=float)
+                rt = L.params.residual_type
+                nd = np.abs(d).max() if rt.startswith('full') else np.abs(d[-1]).max()
+                if rt.endswith('rel'):
+                    nd /= np.abs(U[0]).max()
+                got['obs'] = float(L.status.residual)
+                got['exp'] = float(nd)
+
+        def post_iteration(self, step, level_number):
+            super().post_iteration(step, level_number)
+            self._chk('post_iteration', step)
+
+        def post_step(self, step, level_number):
+            super().post_step(step, level_number)
+            self._chk('post_step', step)
+
+    cfg2 = dict(cfg)
+    cfg2['hooks'] = [Probe]
+    ctl, A = build(cfg2, float_mode=True)
+    P = ctl.MS[0].levels[0].prob
+    u0 = P.dtype_u(P.init)
+    u0[:] = x
+    ctl.run(u0, 0.0, cfg['dt'] * cfg['NP'])
+    if got and abs(got['obs'] - got['exp']) > 1e-9 * (1 + abs(got['exp'])):
+        rep.violation(f'C03/stale-residual/{snap["ev"]}', f'{name}: x0={x}: residual reported at {snap["ev"]} (slot {snap["slot"]}, iter {snap["iter"]}) is {got["obs"]:.6e} '
+                      f'but the defect of the values held at that moment is {got["exp"]:.6e}', {'task': ['fresh'], 'cfg': {k: v for k, v in cfg.items()}, 'x0': x, **got})
+    else:
+        rep.unreproduced(name, {'x0': x, **got})
